@@ -186,7 +186,13 @@ impl Ldap {
         // A Search has already taken its options; for any other operation they are discarded.
         self.search_opts = None;
         let (tx, rx) = oneshot::channel();
-        self.tx.send((id, op, req, self.controls.take(), tx))?;
+        if let Err(e) = self.tx.send((id, op, req, self.controls.take(), tx)) {
+            // The connection driver is gone and will never see this operation: release
+            // the ID reserved for it.
+            let mut msgmap = self.msgmap.lock().expect("msgmap mutex (op send)");
+            msgmap.1.remove(&id);
+            return Err(LdapError::from(e));
+        }
         let response = if let Some(timeout) = self.timeout.take() {
             let res = time::timeout(timeout, rx).await;
             if res.is_err() {
